@@ -37,6 +37,14 @@ func init() {
 			`<% let hh = {a: cnt(), b: cnt(), c: cnt(), a: cnt()} %><%= len(hh) %>`,
 			`<% let hh = {x: rec1(1), y: rec1(2), z: rec1(3), w: rec1(4), v: rec1(5)} %><%= hh["z"] %>`,
 			`<%= toJSON({b: 1, a: 2, c: [3, {z: 1, y: 2}]}) %>`,
+			`<% let h = {"n": 1, "s": "x"} %><% h["n"] = h["n"] + 1 %><%= h["n"] %>`,
+			`<% let h = {n: 1} %><% h["extra"] = "e" %><%= len(h) %>|<%= h["extra"] %>`,
+			`<% let h = {} %><% h["k"] = 1 %><%= len(h) %>`,
+			`<% let a = [1, "s", true] %><% a[1] = a[1] + "!" %><%= a %>`,
+			`<%= truncate("a long string here", {size: 6}) %><%= truncate("abcdefgh", {}) %>`,
+			`<% let f = fn() { let h = {c: 0}
+ h["c"] = h["c"] + 1
+ return h["c"] } %><%= f() %><%= f() %>`,
 			`<%= for (k, v) in {only: 1} { %><%= k %><%= v %><% } %>`,
 			`<% let a = [1,2,3] %><% a[0] = a[0] + 1 %><%= a %>`,
 			`<% let f = fn(x) { return x + 1 } %><%= f(1) %><%= f(2) %>`,
